@@ -16,9 +16,12 @@ pub enum Status {
     NotUtf8,
     /// the body uses the export of a library it does not import (an unbound symbol, whatever the importer has bound)
     UsesUnimported,
+    /// healthy, but the file holds another library definition before the wanted one
+    SecondInFile,
 }
 
-pub const FILE_STATUSES: [Status; 7] = [Status::Healthy, Status::Missing, Status::BodyFault, Status::WrongName, Status::Unbalanced, Status::NotUtf8, Status::UsesUnimported];
+pub const FILE_STATUSES: [Status; 8] =
+    [Status::Healthy, Status::Missing, Status::BodyFault, Status::WrongName, Status::Unbalanced, Status::NotUtf8, Status::UsesUnimported, Status::SecondInFile];
 pub const SOURCE_STATUSES: [Status; 4] = [Status::Healthy, Status::Missing, Status::BodyFault, Status::UsesUnimported];
 
 #[derive(Clone, Debug)]
@@ -29,6 +32,17 @@ pub struct Graph {
     pub status: Vec<Status>,
     /// render every dependency in an import declaration of its own
     pub multi_decl: bool,
+    /// how an edge is written: 0 (g nJ), 1 (prefix (g nJ) pJ:), 2 (only (g nJ) vJ), 3 (rename (g nJ) (vJ wJ))
+    pub wrap: u8,
+}
+
+fn import_set(g: &Graph, j: usize) -> String {
+    match g.wrap {
+        1 => format!("(prefix (g n{}) p{}:)", j, j),
+        2 => format!("(only (g n{}) v{})", j, j),
+        3 => format!("(rename (g n{}) (v{} w{}))", j, j, j),
+        _ => format!("(g n{})", j),
+    }
 }
 
 /// the export of the lowest-numbered other library that library i does not import (v9 = bound nowhere)
@@ -50,12 +64,12 @@ fn body_text(g: &Graph, i: usize) -> String {
 fn lib_text(g: &Graph, i: usize, name_override: Option<&str>) -> String {
     if g.multi_decl {
         // one import declaration per dependency (a library may have several import declarations)
-        let decls: String = g.edges[i].iter().map(|j| format!(" (import (g n{}))", j)).collect();
+        let decls: String = g.edges[i].iter().map(|j| format!(" (import {})", import_set(g, *j))).collect();
         let name = name_override.map(|s| s.to_string()).unwrap_or(format!("(g n{})", i));
         let body = body_text(g, i);
         return format!("(define-library {}{} (export v{}) (begin {}))\n", name, decls, i, body);
     }
-    let imports: String = g.edges[i].iter().map(|j| format!(" (g n{})", j)).collect();
+    let imports: String = g.edges[i].iter().map(|j| format!(" {}", import_set(g, *j))).collect();
     let name = name_override.map(|s| s.to_string()).unwrap_or(format!("(g n{})", i));
     let body = body_text(g, i);
     let imp = if imports.is_empty() { String::new() } else { format!(" (import{})", imports) };
@@ -66,6 +80,7 @@ fn file_bytes(g: &Graph, i: usize) -> Option<Vec<u8>> {
     match g.status[i] {
         Status::Missing => None,
         Status::Healthy | Status::BodyFault | Status::UsesUnimported => Some(lib_text(g, i, None).into_bytes()),
+        Status::SecondInFile => Some(format!("(define-library (g decoy{}) (export d) (begin (define d 0)))\n{}", i, lib_text(g, i, None)).into_bytes()),
         Status::WrongName => Some(lib_text(g, i, Some("(g other)")).into_bytes()),
         Status::Unbalanced => {
             let t = lib_text(g, i, None);
@@ -81,7 +96,7 @@ fn file_bytes(g: &Graph, i: usize) -> Option<Vec<u8>> {
 }
 
 fn traversable(s: Status) -> bool {
-    matches!(s, Status::Healthy | Status::BodyFault | Status::UsesUnimported)
+    matches!(s, Status::Healthy | Status::BodyFault | Status::UsesUnimported | Status::SecondInFile)
 }
 
 /// error classes that the graph makes acceptable for an import of `root` (empty = must succeed)
@@ -104,7 +119,7 @@ pub fn acceptable(g: &Graph, root: usize) -> Vec<&'static str> {
     for i in 0..g.n {
         if reach[i] {
             let c = match g.status[i] {
-                Status::Healthy => continue,
+                Status::Healthy | Status::SecondInFile => continue,
                 Status::Missing | Status::WrongName => "Logic::LibraryNotFound",
                 Status::BodyFault | Status::UsesUnimported => "Logic::UnboundedSymbol",
                 Status::Unbalanced => "Syntax",
@@ -192,7 +207,8 @@ fn run_history(g: &Graph, dir: Option<&PathBuf>, history: &[usize]) -> Result<Ve
             }
             let mut out = vec![];
             for r in &history {
-                let text = format!("(import (g n{}))", r);
+                // the program reaches the root through the same kind of import set (its export then arrives renamed)
+                let text = format!("(import {})", import_set(&g, *r));
                 // a generous budget for graphs of at most 4 libraries: unbounded import recursion trips it
                 ruschm::verif_hooks::arm(100_000, 64, 10_000);
                 let it = &mut s.it;
@@ -205,15 +221,25 @@ fn run_history(g: &Graph, dir: Option<&PathBuf>, history: &[usize]) -> Result<Ve
                     Ok(Ok(_)) => "ok".to_string(),
                     Ok(Err(e)) => class_of(&sut::err_info(&e).tag),
                 };
-                let bound = s.it.env.get(&format!("v{}", r)).is_some();
+                let bound_name = match g.wrap {
+                    1 => format!("p{}:v{}", r, r),
+                    3 => format!("w{}", r),
+                    _ => format!("v{}", r),
+                };
+                let bound = s.it.env.get(&bound_name).is_some();
                 out.push((cls, bound));
             }
             let _ = tx.send(out);
         })
         .unwrap();
-    match rx.recv_timeout(std::time::Duration::from_secs(30)) {
+    // non-termination inside the interpreter is turned into the outcome RUNAWAY by the step/depth budget armed above
+    // (deterministic); this wall-clock watchdog only guards the harness itself: hitting it is inconclusive, never a violation
+    match rx.recv_timeout(std::time::Duration::from_secs(300)) {
         Ok(v) => Ok(v),
-        Err(_) => Err("import-hangs".to_string()),
+        Err(_) => {
+            eprintln!("[rv] C14: an import attempt did not finish within 300 s of wall clock: inconclusive");
+            std::process::exit(2);
+        }
     }
 }
 
@@ -237,7 +263,8 @@ pub fn histories(n: usize, max_len: usize) -> Vec<Vec<usize>> {
 
 fn describe(g: &Graph, files: bool) -> String {
     let parts: Vec<String> = (0..g.n).map(|i| format!("n{}[{:?}]->{:?}", i, g.status[i], g.edges[i])).collect();
-    format!("{}{} {}", if files { "files" } else { "registered" }, if g.multi_decl { " (one import declaration per dependency)" } else { "" }, parts.join(" "))
+    let wrap = ["", " (edges written as prefix sets)", " (edges written as only sets)", " (edges written as rename sets)"][g.wrap as usize % 4];
+    format!("{}{}{} {}", if files { "files" } else { "registered" }, if g.multi_decl { " (one import declaration per dependency)" } else { "" }, wrap, parts.join(" "))
 }
 
 pub fn judge_graph(g: &Graph, files: bool, hist: &[Vec<usize>]) -> Vec<Report> {
@@ -254,7 +281,7 @@ pub fn judge_graph(g: &Graph, files: bool, hist: &[Vec<usize>]) -> Vec<Report> {
     for h in hist {
         let mut rep = Report::new(format!("{} ; attempts {:?}", describe(g, files), h));
         match run_history(g, dir.as_ref(), h) {
-            Err(sig) => rep.fail(sig, "an import attempt did not terminate within 30 s"),
+            Err(sig) => rep.fail(sig, "an import attempt did not terminate"),
             Ok(obs) => {
                 rep.note = format!("{:?}", obs);
                 let mut failed_before = false;
@@ -328,7 +355,9 @@ pub fn graph_from_index(n: usize, statuses: &[Status], idx: u64) -> Graph {
         status.push(statuses[(rest % statuses.len() as u64) as usize]);
         rest /= statuses.len() as u64;
     }
-    Graph { n, edges, status, multi_decl: rest % 2 == 1 }
+    // the way edges are written is not a dimension of its own: it is spread over the graphs by a hash of the index
+    let wrap = ((idx.wrapping_mul(0x9E37_79B9_7F4A_7C15) >> 33) % 4) as u8;
+    Graph { n, edges, status, multi_decl: rest % 2 == 1, wrap }
 }
 
 pub fn graph_count(n: usize, statuses: usize) -> u64 {
@@ -418,11 +447,12 @@ pub fn run(ctx: &Ctx) {
     ctx.set_rule(
         "every directed graph (self-loops allowed) on 1-2 libraries (thorough: 3, strided) x every assignment of node \
          status (files: healthy / missing / body faults at load / file defines another name / unbalanced / not UTF-8 / \
-         body uses the export of a library it does not import; registered sources: healthy / missing / body fault / uses \
+         body uses the export of a library it does not import / a healthy definition that is the second one in its file; registered sources: healthy / missing / body fault / uses \
          unimported) x every history of 1-3 import attempts on one interpreter. \
+         Edges (and the program's own import) are written as plain, prefix, only or rename import sets. \
          Oracle computed from the graph alone: success iff everything reachable is healthy and no cycle is reachable, a \
          cyclic-import error only if a cycle is reachable, a fault's own error class only if that faulty library is \
-         reachable; every attempt equals the same import on a fresh interpreter; every attempt terminates (30 s watchdog); \
+         reachable; every attempt equals the same import on a fresh interpreter; every attempt terminates (step and depth budget of the import hook: 100 000 evaluation steps, 64 nested imports); \
          libraries are located relative to the program directory (eval_file from another working directory with decoys; two program files in different directories run on \
          one interpreter). \
          Non-trivial = >= 2 libraries with a shared dependency or a cycle, or a history whose first attempt fails.",
